@@ -31,7 +31,7 @@ def handle : List String → Option String
       | some ps =>
         match queryNames.mapM (queryField ps) with
         | none => "panic"
-        | some fs => " ".intercalate fs)
+        | some fs => " ".intercalate fs ++ " d=" ++ hexOfBytes (QuerySplit.display ps))
   -- qiter <pairs before> <pairs of the name> <pairs after> [f,b,…] : QueryPairIter driven from both ends
   | ["qiter", n0, na, nb, ds] => do
     let n0 ← n0.toNat?; let na ← na.toNat?; let nb ← nb.toNat?
